@@ -127,11 +127,7 @@ theorem opMove_ok {o r op} (hr : RootOK r) : OutOK (opMove o r op) := by
         | err e => trivial
         | ok x =>
           have hx : NP x := conGet_NP hs hn hg
-          have hv : NP (if key = [] then (deepCopy o.esc x).1 else x) := by
-            split
-            · cases x <;> simp [deepCopy, NP]
-            · exact hx
-          exact liftAct_ok (conRemove_ok hc hn) hv
+          exact liftAct_ok (conRemove_ok hc hn) hx
       have hcont : ∀ r1 val, RootOK r1 → NP val → OutOK (liftWalk r1 (addWalk o r1 op.path val)
           (fun _ => .err .missing)) := by
         intro r1 val h1 hv
@@ -184,9 +180,7 @@ theorem opTest_ok {o r op} (hr : RootOK r) : OutOK (opTest o r op) := by
       | mk b val' =>
         simp only []
         split
-        · split
-          · exact ⟨hc, hn, trivial⟩
-          · exact ⟨hc, hn, trivial⟩
+        · exact ⟨hc, hn, trivial⟩
         · trivial
     | ok val =>
       simp only []
@@ -199,11 +193,8 @@ theorem opTest_ok {o r op} (hr : RootOK r) : OutOK (opTest o r op) := by
         split
         · split
           · exact ⟨hc, hn, trivial⟩
-          · rename_i hk
-            split
-            · exact ⟨hc, hn, trivial⟩
-            · have hp := putChild_ok (child' := val') hc hn this.1 hk hg
-              exact ⟨hp.1, hp.2, trivial⟩
+          · have hp := putChild_ok (child' := val') hc hn this.1 hg
+            exact ⟨hp.1, hp.2, trivial⟩
         · trivial
 
 /-! ### copy -/
@@ -230,6 +221,14 @@ theorem copySource_ok {o r frm} (hr : RootOK r) : WalkOK NP (copySource o r frm)
   | err e => trivial
   | ok x => exact ⟨hc, hn, conGet_NP hs hn hg⟩
 
+theorem copyFirst_ok {o r frm} (hr : RootOK r) : WalkOK NP (copyFirst o r frm) := by
+  unfold copyFirst
+  split
+  · split
+    · trivial
+    · exact ⟨hr.1, hr.2.1, hr.2.1⟩
+  · exact copySource_ok hr
+
 theorem destWalk_ok {o r path} (hr : RootOK r) : WalkOK (fun _ => True) (destWalk o r path) :=
   withPath_ok o r _ _ _ hr fun _ _ _ hc hn _ => ⟨hc, hn, trivial⟩
 
@@ -241,7 +240,7 @@ theorem opCopy_ok {o r acc op} (hr : RootOK r) : OutOK2 (opCopy o r acc op) := b
   split
   · trivial
   · rename_i frm _
-    have hw1 := copySource_ok (o := o) (frm := frm) hr
+    have hw1 := copyFirst_ok (o := o) (frm := frm) hr
     split
     · exact failOf_ok hw1
     · rename_i r1 h1
